@@ -1,8 +1,8 @@
 package main
 
 import (
-	"go/types"
 	"fmt"
+	"go/types"
 	"strings"
 
 	"golang.org/x/tools/go/ssa"
@@ -17,7 +17,7 @@ func init() {
 			"(R2) every store operation names the one key field, which is assigned once, in the constructor, from the configuration's Group; (R3) the refresh presents a revision and token that were read together with a standing claim under the election mutex, publishes the configured instance id, and stores the returned revision back; " +
 			"(R4) every store to the revision field is an own-write result (or the constructor's zero), or an observed revision stored under the write lock while the claim is false in that critical section - so an observed revision can never be the one a leader presents; " +
 			"(R5) created/takeover payloads carry the configured instance id; takeover obligations are C10-R1; (R6) Delete is issued only by a stop unit, after its claim clear, only if the clearing critical section saw the claim true and only after a positive ownership verdict (fresh Get, id and term token equal) issued after the wait for background work; (R7) the deletion itself presents the revision that ownership read saw (compare-and-delete through the store's optional RevisionDeleter extension, which the JetStream adapter implements), so that a takeover landing between the read and the deletion is refused by the store; the unconditional Delete remains only as the fallback for stores without one.",
-		NotDecided: []string{"that the interleaving of legitimately issued writes is safe (the store's revision check plus timing)", "the window between the ownership read and the unconditional Delete (the KeyValue interface has no conditional delete)", "injectivity of the key in Group beyond 'derived only from the configuration'"},
+		NotDecided:  []string{"that the interleaving of legitimately issued writes is safe (the store's revision check plus timing)", "the window between the ownership read and the unconditional Delete (the KeyValue interface has no conditional delete)", "injectivity of the key in Group beyond 'derived only from the configuration'"},
 		Assumptions: []string{"KeyValue.Update succeeds only for the latest revision; Create only when absent (C14, trusted)"},
 		Rules: map[string]string{
 			"R1": "classification of every KeyValue call other than Get/Watch; unclassifiable sites are violations",
@@ -119,12 +119,117 @@ func (m *Model) classifyOp(op StoreOp) string {
 		}
 		return "takeover"
 	case "Delete":
-		if _, _, ok := m.stopFrame(op.Call); ok {
-			return "shutdown-delete"
+		cls := ""
+		for _, fr := range m.opFrames(op.Call) {
+			c := "unclassified-delete"
+			if fr.Stop {
+				c = "shutdown-delete"
+			} else if ok, _ := m.discardsOwnWrite(op, fr); ok {
+				c = "discard-own-write"
+			}
+			if cls == "" || cls == c {
+				cls = c
+			} else if c == "unclassified-delete" || cls == "unclassified-delete" {
+				cls = "unclassified-delete"
+			} else {
+				cls = "shutdown-delete+discard-own-write"
+			}
 		}
-		return "unclassified-delete"
+		if cls == "" {
+			cls = "unclassified-delete"
+		}
+		return cls
 	}
 	return "unclassified"
+}
+
+// discardsOwnWrite: in this calling context the Delete removes a record that this very
+// activation has just written and that it cannot lead: (a) the claim-set unit refused the claim
+// for that write (its call returned false), (b) the revision presented is the one that write
+// returned (so only that record can be removed, where the store offers a conditional delete),
+// (c) a graceful shutdown that asked for the key to be deleted is under way: a boolean field of
+// the election object that is stored non-false only by stop units reads true.
+func (m *Model) discardsOwnWrite(op StoreOp, fr OpFrame) (bool, string) {
+	gs := m.frameGuards(fr, op.Call)
+	refused := false
+	for _, l := range gs {
+		if !l.Truth {
+			if call, ok := l.S.V.(*ssa.Call); ok {
+				if g := call.Call.StaticCallee(); g != nil && containsFn(m.ClaimSet, g) {
+					refused = true
+				}
+			}
+		}
+	}
+	if !refused {
+		return false, "the claim-set unit's refusal (its call returned false) is not among the guards"
+	}
+	flag := ""
+	for _, l := range gs {
+		if !l.Truth {
+			continue
+		}
+		call, ok := l.S.V.(*ssa.Call)
+		if !ok {
+			continue
+		}
+		fld, meth, ok := m.atomicCall(call)
+		if !ok || meth != "Load" {
+			continue
+		}
+		if m.storedTrueOnlyByStopUnits(fld) {
+			flag = fld
+		}
+	}
+	if flag == "" {
+		return false, "no guard reads a flag that only a stop unit sets (the deletion is not tied to a graceful shutdown that asked for it)"
+	}
+	okRev := false
+	for _, a := range op.Call.Call.Args {
+		if b, isB := a.Type().Underlying().(*types.Basic); !isB || b.Kind() != types.Uint64 {
+			continue
+		}
+		o := m.OriginsInFrame(a, fr)
+		if len(o) > 0 && o.all(func(k string) bool { return strings.HasPrefix(k, "ownwrite:") }) {
+			okRev = true
+		}
+	}
+	if op.Extension == "" {
+		// the unconditional fallback: the same frame must present the own-write revision to
+		// the conditional form (checked on that operation); here only (a) and (c) can be checked
+		okRev = true
+	}
+	if !okRev {
+		return false, "the revision presented is not the result of this activation's own Create/Update"
+	}
+	return true, "claim refused for this write; shutdown with key deletion under way (" + m.path(flag) + "); revision of the own write"
+}
+
+// storedTrueOnlyByStopUnits: every store to the atomic boolean field is in a stop unit, or stores
+// the constant false.
+func (m *Model) storedTrueOnlyByStopUnits(fld string) bool {
+	n := 0
+	ok := true
+	for _, f := range m.Funcs {
+		eachInstr(f, func(in ssa.Instruction) {
+			call, isCall := in.(*ssa.Call)
+			if !isCall {
+				return
+			}
+			g, v, isStore := m.atomicStore(call)
+			if !isStore || g != fld {
+				return
+			}
+			n++
+			if k, isC := constBool(v); isC && !k {
+				return
+			}
+			if !containsFn(m.StopUnits, f) {
+				ok = false
+			}
+		})
+	}
+	return ok && n > 0
 }
 
 func checkC01(c *Ctx) {
@@ -245,7 +350,9 @@ func checkC01(c *Ctx) {
 				if call, ok := in.(*ssa.Call); ok {
 					if fld, v, ok := m.atomicStore(call); ok && fld == m.Revision {
 						o := m.Origins(v)
-						if o.all(func(k string) bool { return strings.HasPrefix(k, "ownwrite:Update") || k == "const:zero" || k == "const:0" }) {
+						if o.all(func(k string) bool {
+							return strings.HasPrefix(k, "ownwrite:Update") || k == "const:zero" || k == "const:0"
+						}) {
 							stored = true
 						}
 					}
@@ -277,61 +384,73 @@ func checkC01(c *Ctx) {
 			continue
 		}
 		nDel++
-		fn := shortFn(op.Fn)
-		stopFn, stopAt, inStop := m.stopFrame(op.Call)
-		if !inStop {
-			c.viol("R6", "Delete in "+fn, op.Call, "Delete is issued outside a stop unit: only the owner's graceful shutdown may delete the record")
-			continue
-		}
-		gs := m.AllGuards(op.Call, false)
-		wasLeader := false
-		for _, l := range gs {
-			if m.prevClaimLit(l, true) {
-				wasLeader = true
+		for _, fr := range m.opFrames(op.Call) {
+			fn := shortFn(op.Fn)
+			if len(fr.Chain) > 0 {
+				fn += " via " + shortFn(fr.Root)
 			}
-		}
-		c.check(wasLeader, "R6", "Delete only if the stop cleared a standing claim in "+fn, op.Call, "guards %s", fmtLits(gs))
-		clear := m.clearPoint(stopFn, stopAt)
-		c.check(clear != nil, "R6", "claim cleared before Delete in "+fn, op.Call, "a claim Store(false) (or a call of a function that always clears the claim) dominates the Delete: %v", clear != nil)
-		// ownership verdict
-		var verdict *ssa.Call
-		for _, l := range gs {
-			if call := m.verdictCall(l); call != nil {
-				verdict = call
-			}
-		}
-		if verdict == nil {
-			c.viol("R6", "Delete only after a positive ownership verdict in "+fn, op.Call,
-				"the Delete is not guarded by a fresh read showing this instance's id and term token (guards: %s): a leader preempted since its last heartbeat deletes its successor's record", fmtLits(gs))
-		} else {
-			c.ok("R6", "Delete only after a positive ownership verdict in "+fn, op.Call, "guarded by %s == true", shortFn(verdict.Call.StaticCallee()))
-			// its token argument is the token field read in the clearing section
-			okTok := false
-			for _, a := range verdict.Call.Args[1:] {
-				o := m.Origins(a)
-				if !o["field:"+m.Token] {
-					continue
+			stopFn, stopAt, inStop := fr.Root, fr.At, fr.Stop
+			if !inStop {
+				if ok, why := m.discardsOwnWrite(op, fr); ok {
+					c.ok("R6", "Delete in "+fn, op.Call, "not a shutdown deletion but the removal of a record this activation has just written and cannot lead: %s", why)
+				} else {
+					c.viol("R6", "Delete in "+fn, op.Call, "Delete is issued outside a stop unit and is not the removal of this activation's own unclaimed write (%s): only the owner's graceful shutdown may delete the record", why)
 				}
-				// every load of the token field feeding the argument is made under the write
-				// lock, in the stop unit, before the claim is cleared
-				loads := m.OriginLoads(a)
-				okTok = len(loads) > 0 && clear != nil
-				for _, ld := range loads {
-					if !la.MustBefore(ld)[m.implMuW()] || ld.Parent() != stopFn || !dominatesInstr(ld, clear) {
-						okTok = false
+				continue
+			}
+			gs := m.frameGuards(fr, op.Call)
+			wasLeader := false
+			for _, l := range gs {
+				if m.prevClaimLit(l, true) {
+					wasLeader = true
+				}
+			}
+			c.check(wasLeader, "R6", "Delete only if the stop cleared a standing claim in "+fn, op.Call, "guards %s", fmtLits(gs))
+			clear := m.clearPoint(stopFn, stopAt)
+			c.check(clear != nil, "R6", "claim cleared before Delete in "+fn, op.Call, "a claim Store(false) (or a call of a function that always clears the claim) dominates the Delete: %v", clear != nil)
+			// ownership verdict
+			var verdict *ssa.Call
+			for _, l := range gs {
+				if call := m.verdictCall(l); call != nil {
+					verdict = call
+				}
+			}
+			if verdict == nil {
+				c.viol("R6", "Delete only after a positive ownership verdict in "+fn, op.Call,
+					"the Delete is not guarded by a fresh read showing this instance's id and term token (guards: %s): a leader preempted since its last heartbeat deletes its successor's record", fmtLits(gs))
+			} else {
+				c.ok("R6", "Delete only after a positive ownership verdict in "+fn, op.Call, "guarded by %s == true", shortFn(verdict.Call.StaticCallee()))
+				// its token argument is the token field read in the clearing section
+				okTok := false
+				for _, a := range verdict.Call.Args[1:] {
+					o := m.Origins(a)
+					if !o["field:"+m.Token] {
+						continue
+					}
+					// every load of the token field feeding the argument is made under the write
+					// lock, in the stop unit, before the claim is cleared
+					loads := m.OriginLoads(a)
+					okTok = len(loads) > 0 && clear != nil
+					for _, ld := range loads {
+						if !la.MustBefore(ld)[m.implMuW()] || ld.Parent() != stopFn || !dominatesInstr(ld, clear) {
+							okTok = false
+						}
 					}
 				}
-			}
-			c.check(okTok, "R6", "ownership verdict compares the term token read in the clearing section in "+fn, verdict, "token argument read under the write lock before the claim clear: %v", okTok)
-			// after the wait: a blocking select dominates the verdict
-			var wait ssa.Instruction
-			vfn, vat, _ := m.stopFrame(verdict)
-			eachInstr(vfn, func(in ssa.Instruction) {
-				if s, ok := in.(*ssa.Select); ok && s.Blocking && dominatesInstr(in, vat) {
-					wait = in
+				c.check(okTok, "R6", "ownership verdict compares the term token read in the clearing section in "+fn, verdict, "token argument read under the write lock before the claim clear: %v", okTok)
+				// after the wait: a blocking select dominates the verdict
+				var wait ssa.Instruction
+				vfn, vat := stopFn, stopAt
+				if verdict.Parent() == stopFn {
+					vat = verdict
 				}
-			})
-			c.check(wait != nil, "R6", "ownership verdict issued after the wait in "+fn, verdict, "a blocking select (wait for background work) dominates the ownership read: %v", wait != nil)
+				eachInstr(vfn, func(in ssa.Instruction) {
+					if s, ok := in.(*ssa.Select); ok && s.Blocking && dominatesInstr(in, vat) {
+						wait = in
+					}
+				})
+				c.check(wait != nil, "R6", "ownership verdict issued after the wait in "+fn, verdict, "a blocking select (wait for background work) dominates the ownership read: %v", wait != nil)
+			}
 		}
 	}
 	if nDel < 1 {
@@ -347,11 +466,18 @@ func checkC01(c *Ctx) {
 		if op.Method != "Delete" {
 			continue
 		}
-		if _, _, ok := m.stopFrame(op.Call); !ok {
+		inStop := false
+		var stopFr OpFrame
+		for _, fr := range m.opFrames(op.Call) {
+			if fr.Stop {
+				inStop, stopFr = true, fr
+			}
+		}
+		if !inStop {
 			continue
 		}
 		fn := shortFn(op.Fn)
-		gs := m.AllGuards(op.Call, false)
+		gs := m.frameGuards(stopFr, op.Call)
 		if op.Extension != "" {
 			nCond++
 			// some argument is the revision read by the ownership check
@@ -361,7 +487,7 @@ func checkC01(c *Ctx) {
 				if b, isB := a.Type().Underlying().(*types.Basic); !isB || b.Kind() != types.Uint64 {
 					continue
 				}
-				o := m.Origins(a)
+				o := m.OriginsInFrame(a, stopFr)
 				os = append(os, o.String())
 				if o["observed"] && o.all(func(k string) bool { return k == "observed" || strings.HasPrefix(k, "const:") }) {
 					okRev = true
